@@ -100,6 +100,8 @@ impl Run {
             }
         }
         let replay_dir = dir.join("replays").join(&self.property);
+        // replay files of earlier runs are stale
+        let _ = std::fs::remove_dir_all(&replay_dir);
         let mut nviol = 0;
         for (key, (count, v)) in &new_keys {
             nviol += 1;
